@@ -127,7 +127,15 @@ func genErrTree(r *rand.Rand, depth int, used map[int]bool) string {
 		id := pick(r, leafIDs...)
 		return fmt.Sprintf("L%d:%d", id, leafTy[id])
 	}
-	switch r.Intn(6) {
+	switch r.Intn(7) {
+	case 6:
+		// a custom aggregate ("one slot per worker") whose first slot is nil: the members behind the nil slot still count
+		id := 30 + r.Intn(3)
+		if used[id] {
+			return genErrTree(r, 0, used)
+		}
+		used[id] = true
+		return fmt.Sprintf("N%d:%d(%s)", id, tyMultiC, genErrTree(r, depth-1, used))
 	case 0:
 		return fmt.Sprintf("W%d:%d(%s)", 10+r.Intn(3), tyWrap, genErrTree(r, depth-1, used))
 	case 1:
@@ -160,6 +168,12 @@ func genCondList(r *rand.Rand) string {
 		n = 0
 	}
 	var cs []string
+	if r.Intn(8) == 0 {
+		cs = append(cs, pick(r, "E0", "Y0")) // HandleErrors() / HandleErrorTypes() with an empty target list: configures no condition
+		if r.Intn(2) == 0 {
+			n = 0
+		}
+	}
 	for i := 0; i < n; i++ {
 		switch r.Intn(4) {
 		case 0:
